@@ -3,7 +3,7 @@
 # the translator's own correspondence: the Go functions go2lean translates vs the regenerated definitions (Gen/Src.lean)
 _SRC_STREAM = {"name": "src", "quick": 4000, "thorough": 150000, "thorough_seeds": 2}
 _SRC_RULE = (" `src`: the functions harness/cmd/go2lean translates (kademlia distance functions, the ten mux/demux functions, fragswarm "
-             "newMessage/parseMessage and aggregator, mbapp header accessors, bitmap and collector histories, p2pke classifiers, header and session gates, p2p.VecSize/VecBytes, runs of the "
+             "newMessage/parseMessage and aggregator, dhtIterate against scripted networks (pool of ids sharing prefixes with the key, answers that point nearer, farther, back and at unknown ids, duplicates of an id with different info in small instances, candidate limits 1..1000, 0 and -1), mbapp header accessors, bitmap and collector histories, p2pke classifiers, header and session gates, p2p.VecSize/VecBytes, runs of the "
              "wireguard replay filter) on related/boundary inputs; the Lean driver evaluates the REGENERATED definitions on the same "
              "inputs, panics included: the translator and Src/Rt.lean are compared with the Go compiler on every run.")
 _CACHE_STREAM = {"name": "cache", "quick": 30000, "thorough": 400000, "thorough_seeds": 4, "stateful": True, "seq_start": "new"}
@@ -172,9 +172,9 @@ PROPS = {
         "assumptions": ["slices.SortFunc yields some permutation sorted by the comparator (ties in any order)"],
     },
     "C20": {
-        "streams": [{"name": "dht", "quick": 4000, "thorough": 150000, "thorough_seeds": 3}, _NODE_STREAM],
+        "streams": [{"name": "dht", "quick": 4000, "thorough": 150000, "thorough_seeds": 3}, _NODE_STREAM, _SRC_STREAM],
         "oracles": ["dht", "node"],
-        "rule": _NODE_RULE + " `dht`: one case = one iterative operation (findnode/join/get/put) against a simulated network of 1-40 nodes with honest, "
+        "rule": _NODE_RULE + _SRC_RULE + " `dht`: one case = one iterative operation (findnode/join/get/put) against a simulated network of 1-40 nodes with honest, "
                 "failing and adversarial tables (cycles, self references, the zero id, fabricated ids, 60-entry lists, ids sharing "
                 "long prefixes with the key), 0-7 initial peers with duplicates; non-trivial = more than one node contacted; "
                 "compared: the exact sequence of RPCs and the whole result struct",
